@@ -91,7 +91,11 @@ func (o *oracle) readTs() uint64 {
 	// timestamp and are going through the write to value log and LSM tree
 	// process. Not waiting here could mean that some txns which have been
 	// committed would not be read.
-	y.Check(o.txnMark.WaitForMark(context.Background(), readTs))
+	// After Stop (the DB is closing) no commit will be marked done any more; such a transaction
+	// cannot do anything useful, but creating it must not block forever.
+	if err := o.txnMark.WaitForMark(context.Background(), readTs); err != y.ErrWaterMarkClosed {
+		y.Check(err)
+	}
 	y.VerifPoint("orc.read.done")
 	return readTs
 }
